@@ -49,7 +49,7 @@ ROT = 4   # exception classes tried per call occurrence
 
 def budget(tier):
     if tier == 'thorough':
-        return {'seeds': 150000, 'chunk': 200, 'wall_cap': 1500, 'extra': {'big': True}}
+        return {'seeds': 800000, 'chunk': 500, 'wall_cap': 1200, 'extra': {'big': True}}
     return {'seeds': 12000, 'chunk': 100, 'wall_cap': 240, 'extra': None}
 
 
